@@ -9,6 +9,12 @@ Exhaustively enumerated configuration matrix (E2).  Two kinds of work item:
   form and parsed for the value shown next to each planted name.
 * ``curl`` - ``Case.as_curl_command()`` called in-process for *every* default key and marker x spelling x location x config.
 
+Review round 2 added (see detection/C15.md): an operation whose requests end in a network error without a response (hooks
+module mc/c15_extra.py) in the hdr/auth/userinfo documents; a second ``Set-Cookie`` response header and a query name given
+twice; the ``links`` group = stateful phase with an unresolvable link (multi-step scenario, "Failed to extract data from
+response" history block); custom lists replaced by the empty list and the all-arguments ``configure`` + ``extend`` of the
+documentation example; the message of the ``FailureGroup`` raised by ``Case.call_and_validate()`` as a further channel.
+
 The oracle is written from the property text and the documented default key / marker lists (transcribed below); it never
 calls the sanitiser.
 """
@@ -36,19 +42,29 @@ ENGINES = ["E2"]
 RULE = (
     "work item = one configuration point: (route group x key spelling x sanitisation config x phases x workers) executed once on "
     "the real `st run` CLI in a subprocess with a distinct canary on every route, or one in-process Case.as_curl_command() call "
-    "carrying every default key/marker name in one spelling; a judged point = (planted name, channel) whose value really was on "
+    "carrying every default key/marker name in one spelling (plus, without URL userinfo, one Case.call_and_validate() against a 500 "
+    "answer whose FailureGroup message is the channel `py_failure`); a judged point = (planted name, channel) whose value really was on "
     "the wire (request log of the adapter); distinct = distinct (group, spelling, config, route, name, channel)"
 )
+NETERR_GROUPS = ("hdr", "auth", "userinfo")  # groups whose document has the operation that ends in a network error
 BOUNDS = {
     "quick": {"groups": ["hdr", "auth", "userinfo", "secgen"], "spellings": ["lower", "upper", "title", "swapsep"],
               "configs": ["on", "off"], "custom_configs": ["keys", "markers", "replacement", "extend"], "custom_groups": ["hdr", "auth"],
-              "phases": ["fuzzing"], "workers": [1], "cli_runs": 40,
-              "curl_spellings": 6, "curl_configs": 6, "curl_locations": 3},
+              "phases": ["fuzzing"], "workers": [1],
+              # review round 2: stateful runs of the `links` document (multi-step scenario, "Failed to extract data" history block),
+              # and the empty-list / all-arguments-at-once custom configurations on the header group
+              "round2_runs": [["links", "lower", "on"], ["links", "title", "on"], ["links", "upper", "off"], ["links", "swapsep", "replacement"],
+                              ["hdr", "title", "nokeys"], ["hdr", "upper", "nomarkers"], ["hdr", "lower", "both"]],
+              "network_error_operation_in_groups": list(NETERR_GROUPS), "response_headers_with_two_values": ["set-cookie"],
+              "cli_runs": 47, "curl_spellings": 6, "curl_configs": 9, "curl_locations": 3, "curl_variants": 5},
     "thorough": {"groups": ["hdr", "auth", "userinfo", "secgen"],
                  "spellings": ["lower", "upper", "title", "alt", "swapsep", "swapsep_upper"],
                  "configs": ["on", "off", "keys", "markers", "replacement", "extend"],
-                 "phases": ["fuzzing", "examples,coverage,fuzzing,stateful"], "workers": [1, 2], "cli_runs": 368,
-                 "curl_spellings": 6, "curl_configs": 6, "curl_locations": 3},
+                 "phases": ["fuzzing", "examples,coverage,fuzzing,stateful"], "workers": [1, 2],
+                 "round2_configs": ["nokeys", "nomarkers", "both"], "round2_groups": ["links (stateful, every config x spelling)",
+                                                                                      "hdr (round2_configs x spelling)"],
+                 "network_error_operation_in_groups": list(NETERR_GROUPS), "response_headers_with_two_values": ["set-cookie"],
+                 "cli_runs": 440, "curl_spellings": 6, "curl_configs": 9, "curl_locations": 3, "curl_variants": 5},
 }
 BUDGET_S = {"quick": 140, "thorough": 2400}
 CHUNK = 1
@@ -61,17 +77,28 @@ ASSUMPTIONS = [
     "(the CLI has no option for them)",
     "generated security values are judged by the value shown next to their name in every channel; substring search only for values of >= 8 characters",
     "one Hypothesis execution per run (--generation-deterministic): the inputs that are enumerated are configurations, not draws",
+    "a network error is the exception requests raises for a refused connection, built from the real requests/urllib3 classes in "
+    "mc/c15_extra.py (ConnectionError(MaxRetryError(pool, path?query, NewConnectionError))); nothing is demanded to be *shown* for that "
+    "operation in console/JUnit (they print no request for an error), only that no sensitive value appears anywhere",
+    "of two response headers with the same name the second value is demanded (sanitisation off / unconfigured name) in the VCR cassette "
+    "only: a HAR record holds one value per header",
+    "the base64 copy of URL userinfo that requests puts into the Authorization header is undecided (not judged) under a custom "
+    "configuration whose lists do not name 'authorization' (config `both`); the userinfo inside every URL is still judged",
+    "configure(keys_to_sanitize=[]) / configure(sensitive_markers=[]) replace the list by the empty list ('Replace configuration', "
+    "docs/sanitizing.rst); configurations whose key list lacks 'cookie' are run on the CLI without request cookies and skipped for the "
+    "cookies variant of call_and_validate (per-cookie gap = recorded finding KF-C15-4a..d)",
 ]
 TECHNIQUE = ("exhaustive configuration-matrix enumeration on the real CLI (subprocess, in-process HTTP adapter loaded through "
              "SCHEMATHESIS_HOOKS) with canary secrets on every input route, judged by substring search over every encoded form and "
              "by the value displayed next to each planted name in each parsed artefact")
 LEVEL_TEXT = (
     "Every point of the stated matrix (route group x spelling x config [x phases x workers]) is executed once on the real CLI and every "
-    "artefact of every run is searched for every planted canary; Case.as_curl_command() is additionally run for every default key "
-    "and marker in every spelling and location. Exhaustive over the stated matrix; not a proof about names, values or options outside it."
+    "artefact of every run is searched for every planted canary; Case.as_curl_command() and the failure message of "
+    "Case.call_and_validate() are additionally run for every default key and marker in every spelling and location. Exhaustive over the stated matrix; not a proof about names, values or options outside it."
 )
 LEVEL_NOTE = ("Trusted: the in-process requests adapter (mc/httpseam.py) and the request log it writes. Not covered: secrets in bodies, "
-              "GraphQL, pytest output, names outside the default lists other than the stated custom ones.")
+              "GraphQL, pytest's own rendering (the FailureGroup message it prints is covered), names outside the default lists other than "
+              "the stated custom ones, network errors other than a refused connection, redirects.")
 
 ROOT = Path(__file__).resolve().parent.parent
 HOST = "verif.local"
@@ -104,7 +131,17 @@ CUSTOM = {
     "markers": {"configure": {"sensitive_markers": ["Trace"]}},
     "replacement": {"configure": {"replacement": "REDACTED-7"}},
     "extend": {"extend": {"keys_to_sanitize": ["X-Ctl-Resp"], "sensitive_markers": ["Plain"]}},
+    # review round 2: a list replaced by the EMPTY list (then only the other list decides), and the shape of the example in
+    # docs/sanitizing.rst: all three arguments in one `configure` call followed by `extend` of both lists
+    "nokeys": {"configure": {"keys_to_sanitize": []}},
+    "nomarkers": {"configure": {"sensitive_markers": []}},
+    "both": {"configure": {"replacement": "[Custom]", "keys_to_sanitize": ["X-Trace-Id"], "sensitive_markers": ["Plain"]},
+             "extend": {"keys_to_sanitize": ["X-Ctl-Resp"], "sensitive_markers": ["Password"]}},
 }
+CURL_CONFIGS = ["on", "off", "keys", "markers", "replacement", "extend", "nokeys", "nomarkers", "both"]
+# configurations whose exact-key list lacks `cookie`: on the CLI they are run without request cookies (the per-cookie gap under
+# such a list is the recorded finding KF-C15-4a..d, keyed to config `keys`; it is not enumerated again under other names)
+NO_COOKIE_KEY = {"nokeys", "both"}
 SPELLINGS = ["lower", "upper", "title", "alt", "swapsep", "swapsep_upper"]
 CHANNELS = ["console", "junit", "vcr", "har", "curl_hook"]
 
@@ -217,12 +254,12 @@ def build(item: dict) -> tuple[Plan, dict, dict]:
     base_url = f"http://{HOST}"
 
     hdr_names = _dedupe([sp(n) for n in HEADER_KEYS + sorted(MARKER_ONLY.values())])
-    if group == "userinfo":
+    if group in ("userinfo", "links"):
         hdr_names = _dedupe([sp(n) for n in ("x-api-key", "token", MARKER_ONLY["secret"])])
     if group == "secgen":
         hdr_names = []
     hdr_controls = [(sp(LIVE_HEADER), "live"), (sp(MOVABLE_HEADER), "movable")]
-    if group in ("hdr", "userinfo", "secgen"):
+    if group in ("hdr", "userinfo", "secgen", "links"):
         for name in hdr_names:
             if name.lower() == "authorization":
                 if group != "hdr":
@@ -248,7 +285,7 @@ def build(item: dict) -> tuple[Plan, dict, dict]:
             s = plan.plant("--set-header", "req_header", name, "sh", control=kind)
             header_params.append(name)
             argv += ["--set-header", f"{name}={s['value']}"]
-    if group == "userinfo":
+    if group in ("userinfo", "links"):
         s = plan.plant("userinfo", "userinfo", "<userinfo>", "u", user="user")
         base_url = f"http://user:{s['value']}@{HOST}"
 
@@ -261,7 +298,7 @@ def build(item: dict) -> tuple[Plan, dict, dict]:
         s = plan.plant("--set-query", "req_query", name, "q", control=kind)
         query_params.append(name)
         argv += ["--set-query", f"{name}={s['value']}"]
-    if group in ("hdr", "auth"):
+    if group in ("hdr", "auth") and not item.get("nocookies"):
         for name in _dedupe([sp(n) for n in COOKIE_KEYS]) + [sp(CONTROL_COOKIE)]:
             s = plan.plant("--set-cookie", "req_cookie", name, "c", control="cookie" if name.lower() == CONTROL_COOKIE else None)
             cookie_params.append(name)
@@ -271,6 +308,10 @@ def build(item: dict) -> tuple[Plan, dict, dict]:
     resp_headers: list[list[str]] = []
     s = plan.plant("response_set_cookie", "resp_header", sp("set-cookie"), "rc", cookie="sid")
     resp_headers.append([s["name"], f"sid={s['value']}; Path=/"])
+    # a SECOND header of the same name (the usual shape of Set-Cookie): the cassette lists every value of a header, the HAR
+    # format has one value per record, so the presence of the second value is demanded in the VCR cassette only
+    s = plan.plant("response_set_cookie_2nd", "resp_header", sp("set-cookie"), "rc", cookie="sid2", printed=["vcr"])
+    resp_headers.append([s["name"], f"sid2={s['value']}; Path=/; HttpOnly"])
     for name in _dedupe([sp(n) for n in RESP_KEYS]):
         s = plan.plant("response_header", "resp_header", name, "r")
         resp_headers.append([name, s["value"]])
@@ -284,7 +325,25 @@ def build(item: dict) -> tuple[Plan, dict, dict]:
     op = lambda **kw: {"get": {"parameters": parameters, "responses": {"200": {"description": "ok"}}, **kw}}  # noqa: E731
     doc: dict[str, Any] = {"openapi": "3.0.2", "info": {"title": "c15", "version": "1"}, "paths": {"/ok": op(), "/fail": op()}}
     routes: dict[str, Any] = {"/fail": {"status": 500, "headers": resp_headers, "body": "{\"error\": 1}"}}
+    default: dict[str, Any] = {"status": 200, "headers": resp_headers, "body": "{}"}
     generated: list[dict] = []
+    if group in NETERR_GROUPS:
+        # a third operation whose every request ends in a network error (no response at all): ERRORS section of the console,
+        # <error> in JUnit, `response: null` in the cassette, the no-response entry of the HAR file
+        doc["paths"]["/neterr"] = op()
+        routes["/neterr"] = {"raise": "connection"}
+    if group == "links":
+        # stateful phase: POST /users -> 201 -> link to GET /users/{id} whose `id` cannot be taken from the response body, so the
+        # console also prints the "Failed to extract data from response" block with the curl line of the *previous* step;
+        # GET /users/<anything> answers 500, which gives the FAILURES block / JUnit failure of a multi-step scenario
+        link = {"operationId": "getUser", "parameters": {"id": "$response.body#/id"}}
+        doc["paths"] = {
+            "/users": {"post": {"parameters": parameters, "responses": {"201": {"description": "ok", "links": {"get": link}}}}},
+            "/users/{id}": {"get": {"operationId": "getUser", "responses": {"200": {"description": "ok"}},
+                                    "parameters": [{"name": "id", "in": "path", "required": True, "schema": {"type": "string"}}, *parameters]}},
+        }
+        routes = {"/users": {"status": 201, "headers": resp_headers, "body": "{\"nope\": 1}"}}
+        default = {"status": 500, "headers": resp_headers, "body": "{\"error\": 1}"}
     if group == "secgen":
         kh, kq, kc = sp("x-api-key"), sp("api_key"), sp("sessionid")
         doc["components"] = {"securitySchemes": {
@@ -316,7 +375,7 @@ def build(item: dict) -> tuple[Plan, dict, dict]:
             {"route": "generated_basic", "loc": "req_header", "name": "Authorization", "path": "/fail_basic", "prefix": "Basic "},
             {"route": "generated_bearer", "loc": "req_header", "name": "Authorization", "path": "/fail_bearer", "prefix": "Bearer "},
         ]
-    scenario: dict[str, Any] = {"host": HOST, "routes": routes, "default": {"status": 200, "headers": resp_headers, "body": "{}"}}
+    scenario: dict[str, Any] = {"host": HOST, "routes": routes, "default": default}
     if config in CUSTOM:
         scenario["sanitization"] = CUSTOM[config]
     plan.argv = ["--url", base_url, *argv]
@@ -342,7 +401,7 @@ def items(tier: str, seed: int) -> list[dict]:
     b = BOUNDS[tier]
     out: list[dict] = []
     # in-process as_curl_command(): full key/marker x spelling x config matrix
-    for config in ["on", "off", "keys", "markers", "replacement", "extend"]:
+    for config in CURL_CONFIGS:
         for how in SPELLINGS:
             out.append({"kind": "curl", "spelling": how, "config": config})
     seen = set()
@@ -351,8 +410,11 @@ def items(tier: str, seed: int) -> list[dict]:
         key = (group, how, config, phases, workers)
         if key not in seen:
             seen.add(key)
-            out.append({"kind": "cli", "group": group, "spelling": how, "config": config, "phases": phases, "workers": workers,
-                        "max_examples": 10 if group == "secgen" else 2})
+            it = {"kind": "cli", "group": group, "spelling": how, "config": config, "phases": phases, "workers": workers,
+                  "max_examples": 10 if group == "secgen" else 2}
+            if config in NO_COOKIE_KEY and group in ("hdr", "auth"):
+                it["nocookies"] = True
+            out.append(it)
 
     if tier == "quick":
         for config in b["configs"]:
@@ -362,6 +424,8 @@ def items(tier: str, seed: int) -> list[dict]:
         for k, config in enumerate(b["custom_configs"]):
             for j, group in enumerate(b["custom_groups"]):
                 add(group, b["spellings"][(k + j) % len(b["spellings"])], config, "fuzzing", 1)
+        for group, how, config in b["round2_runs"]:
+            add(group, how, config, "stateful" if group == "links" else "fuzzing", 1)
     else:
         for phases, workers in [(b["phases"][0], 1), (b["phases"][1], 1), (b["phases"][0], 2)]:
             for config in b["configs"]:
@@ -370,6 +434,11 @@ def items(tier: str, seed: int) -> list[dict]:
                         if (phases, workers) != (b["phases"][0], 1) and how in ("alt", "swapsep_upper") and config not in ("on", "off"):
                             continue  # the two extra spellings x custom configs only in the base variant
                         add(group, how, config, phases, workers)
+        for how in b["spellings"]:
+            for config in b["round2_configs"]:
+                add("hdr", how, config, b["phases"][0], 1)
+            for config in b["configs"] + b["round2_configs"]:
+                add("links", how, config, "stateful", 1)
     return out
 
 
@@ -390,7 +459,7 @@ def run_cli(item: dict) -> tuple[Plan, dict]:
         # the module is found through PYTHONPATH; whatever the parent has there (a scratch copy of the sources when a
         # mutant is being tried) stays in front of site-packages
         env["PYTHONPATH"] = os.pathsep.join([p for p in (str(ROOT), os.environ.get("PYTHONPATH", "")) if p])
-        env["SCHEMATHESIS_HOOKS"] = "mc.cli_hooks"
+        env["SCHEMATHESIS_HOOKS"] = "mc.c15_extra"  # = mc.cli_hooks + routes that end in a network error
         env["VERIF_CLI_SCENARIO"] = str(work / "scenario.json")
         env["PYTHONHASHSEED"] = "0"
         env["COLUMNS"] = "400"
@@ -506,7 +575,9 @@ def line_place(line: str) -> str:
     if "Base URL:" in line:
         return "base_url_line"
     if "curl -X" in line:
-        return "curl"
+        # "[201] curl -X POST ..." = a previous step in the stateful "Failed to extract data from response" block
+        head = line.strip()
+        return "history_curl" if head[:1] == "[" and head[1:4].isdigit() and head[4:5] == "]" else "curl"
     if "Traceback" in line or line.startswith("  File "):
         return "traceback"
     return "other"
@@ -580,7 +651,7 @@ def shown_values(channel: str, text: str) -> list[dict] | None:
         for k, v in query:
             out.append({"kind": "req_query", "name": k, "value": v})
 
-    if channel in ("console", "junit", "curl_hook", "as_curl"):
+    if channel in ("console", "junit", "curl_hook", "as_curl", "py_failure"):
         if channel == "junit":
             try:
                 root = ET.fromstring(text)
@@ -640,14 +711,14 @@ def shown_values(channel: str, text: str) -> list[dict] | None:
 
 # where a request / response part is printed when nothing hides it
 PRINTED = {
-    "req_header": {"console", "junit", "vcr", "har", "curl_hook", "as_curl"},
-    "req_query": {"console", "junit", "vcr", "har", "curl_hook", "as_curl"},
-    "req_cookie": {"console", "junit", "vcr", "har", "curl_hook", "as_curl"},
+    "req_header": {"console", "junit", "vcr", "har", "curl_hook", "as_curl", "py_failure"},
+    "req_query": {"console", "junit", "vcr", "har", "curl_hook", "as_curl", "py_failure"},
+    "req_cookie": {"console", "junit", "vcr", "har", "curl_hook", "as_curl", "py_failure"},
     "userinfo": {"console", "junit", "vcr", "har", "curl_hook", "as_curl"},
     "basic_auth": {"console", "junit", "vcr", "har", "curl_hook"},
     "resp_header": {"vcr", "har"},
 }
-FAILING_ONLY = {"console", "junit"}  # channels that show the failing case only
+FAILING_ONLY = {"console", "junit", "py_failure"}  # channels that show the failing case only
 
 
 def is_sensitive(secret: dict, keys: frozenset, markers: frozenset) -> bool | None:
@@ -703,6 +774,7 @@ def judge(res: Result, item: dict, secrets: list[dict], art: dict, channels: lis
         if sens is None:
             res.count("undecided_cookie_with_plain_name")
             continue
+        printed = set(s.get("printed") or PRINTED[s["loc"]])
         for ch in channels:
             text = art.get(ch)
             if not text:
@@ -710,6 +782,15 @@ def judge(res: Result, item: dict, secrets: list[dict], art: dict, channels: lis
             res.states += 1
             hits = find(ch, text, s)
             res.transitions += len(forms_of(s))
+            if sens and s["loc"] == "userinfo" and not name_matches("authorization", keys, markers):
+                # `requests` copies URL userinfo into an `Authorization: Basic <base64>` header.  Under a custom configuration whose
+                # lists no longer name `authorization` (only `both` here) the text says both "URL userinfo is never shown" and
+                # "the custom lists decide which headers are" - left open, like a plain-named cookie inside a listed Cookie header:
+                # the base64 copy is not judged; the userinfo inside URLs (raw / percent form) still is.
+                undecided = [h for h in hits if h[0] == "base64"]
+                if undecided:
+                    res.count("undecided_userinfo_copy_in_unlisted_authorization", len(undecided))
+                    hits = [h for h in hits if h[0] != "base64"]
             f = facts(s, ch, item)
             if log is None:
                 on_wire = True
@@ -725,7 +806,7 @@ def judge(res: Result, item: dict, secrets: list[dict], art: dict, channels: lis
                                    "excerpt": excerpt(text, s)})
                 # (2) where the name is displayed, the redaction marker stands in for the value (covers what a substring search
                 #     cannot see: truncated, re-encoded or blanked values)
-                if not hits and shown[ch] is not None and ch in PRINTED[s["loc"]]:
+                if not hits and shown[ch] is not None and ch in printed:
                     for entry in shown[ch]:
                         if not same_slot(entry, s):
                             continue
@@ -740,7 +821,7 @@ def judge(res: Result, item: dict, secrets: list[dict], art: dict, channels: lis
                     if on_wire:
                         res.nontriv([item["kind"], item.get("group"), item["spelling"], item["config"], s["route"], s["name"], ch])
                         res.count(f"hidden:{s['route']}")
-            elif ch in PRINTED[s["loc"]]:
+            elif ch in printed:
                 if not on_wire:
                     res.count(f"not_on_wire:{s['route']}")
                     continue
@@ -852,10 +933,63 @@ def check_cli(item: dict) -> Result:
     res.count("generated_values_searched", len(gen))
     judge(res, item, plan.secrets, art, channels, log)
     judge_generated(res, item, plan, gen, art, channels, log)
+    flows(res, item, plan, art, channels, log)
     if len(res.samples) < 2:
         res.samples.append({"item": item, "argv_len": len(art["argv"]), "requests": len(log), "secrets": len(plan.secrets),
                             "first_secret": plan.secrets[0], "channels_alive": channels})
     return res
+
+
+def flows(res: Result, item: dict, plan: Plan, art: dict, channels: list[str], log: list[dict]) -> None:
+    """Review round 2: the run must really have gone through the flows its group is there for (network error without a
+    response; multi-step stateful scenario with the history block).  Judging is done by `judge` over the whole artefacts; this
+    only counts, per channel, that the flow left content there (read by `vacuity`), and reports a run without it as a broken
+    run, never as a pass."""
+    console = art["console"]
+    live = next(s for s in plan.secrets if s.get("control") == "live" and s["loc"] == "req_header")["value"]
+    if item["group"] in NETERR_GROUPS:
+        if not any(r["status"] == 0 and r["path"] == "/neterr" for r in log) or "Network Error" not in console:
+            res.oracle_errors.append({"error": "the operation scripted to end in a network error did not", "item": item,
+                                      "console_tail": console[-2500:]})
+            return
+        res.count("neterr:console")
+        if "junit" in channels:
+            try:
+                if any(el.tag == "error" for el in ET.fromstring(art["junit"]).iter()):
+                    res.count("neterr:junit")
+            except ET.ParseError:
+                pass
+        if "vcr" in channels:
+            import yaml
+
+            try:
+                data = yaml.safe_load(art["vcr"]) or {}
+            except yaml.YAMLError:
+                data = {}
+            for it in data.get("http_interactions") or []:
+                if it.get("response") is None and "/neterr" in ((it.get("request") or {}).get("uri") or ""):
+                    res.count("neterr:vcr")
+                    if any(live in v for vs in (it["request"].get("headers") or {}).values() for v in vs):
+                        res.count("neterr:vcr_live")
+        if "har" in channels:
+            for e in json.loads(art["har"])["log"]["entries"]:
+                if e["response"].get("status") == 0 and "/neterr" in e["request"].get("url", ""):
+                    res.count("neterr:har")
+                    if any(live in h["value"] for h in e["request"].get("headers", [])):
+                        res.count("neterr:har_live")
+    if item["group"] == "links":
+        block = console[console.find("Failed to extract data from response"):] if "Failed to extract data from response" in console else ""
+        steps = [line for line in block.split("\n") if line.strip().startswith("[201] curl -X POST")]
+        if not steps:
+            res.oracle_errors.append({"error": "stateful run without the 'Failed to extract data from response' history block", "item": item,
+                                      "console_tail": console[-2500:]})
+            return
+        res.count("links:history_block", len(steps))
+        if any(live in line for line in steps):
+            res.count("links:history_live")
+        methods = {r["method"] for r in log}
+        if {"POST", "GET"} <= methods:
+            res.count("links:multi_step")
 
 
 def judge_generated(res: Result, item: dict, plan: Plan, gen: list[dict], art: dict, channels: list[str], log: list[dict]) -> None:
@@ -950,7 +1084,7 @@ def check_curl(item: dict) -> Result:
         if calls.get("extend"):
             schemathesis.sanitization.extend(**calls["extend"])
         for userinfo in (False, True):
-            for variant in ("case_headers", "extra_headers", "query", "cookies"):
+            for variant in ("case_headers", "extra_headers", "query", "query_multi", "cookies"):
                 plan = Plan(item)
                 secrets = []
                 for n in names:
@@ -960,6 +1094,12 @@ def check_curl(item: dict) -> Result:
                         s = plan.plant("as_curl_header", "req_header", n, "k", control="live" if n.lower() == LIVE_HEADER else None)
                     elif variant == "query":
                         s = plan.plant("as_curl_query", "req_query", n, "k", control="live" if n.lower() == LIVE_HEADER else None)
+                    elif variant == "query_multi":
+                        # the same name twice in the query string (`?token=a&token=b`, an exploded array): both values are judged
+                        s = plan.plant("as_curl_query", "req_query", n, "k", control="live" if n.lower() == LIVE_HEADER else None)
+                        s["source"] = "case"
+                        secrets.append(s)
+                        s = plan.plant("as_curl_query_2nd", "req_query", n, "k")
                     else:
                         s = plan.plant("as_curl_cookie", "req_cookie", n, "k")
                     s["source"] = "case"
@@ -986,6 +1126,13 @@ def check_curl(item: dict) -> Result:
                     extra = values
                 elif variant == "query":
                     kw["query"] = values
+                elif variant == "query_multi":
+                    kw["query"] = {}
+                    for s in secrets:
+                        if s["loc"] == "req_query":
+                            kw["query"].setdefault(s["name"], []).append(s["value"])
+                    assert all(len(v) == 2 for v in kw["query"].values())
+                    res.count("multi_value:query", len(kw["query"]))
                 else:
                     kw["cookies"] = values
                 case = operation.Case(**kw)
@@ -993,11 +1140,46 @@ def check_curl(item: dict) -> Result:
                 res.evaluations += 1
                 res.traces += 1
                 judge(res, {**item, "variant": variant, "userinfo": userinfo}, secrets, {"as_curl": command, "argv": None}, ["as_curl"], None)
+                # review round 2 - the other entry point to the same reproduction command: the message of the FailureGroup that
+                # `Case.call_and_validate()` raises (what a pytest run prints), request really sent through the in-process adapter.
+                # Not with URL userinfo (the adapter is mounted for the plain host), and request cookies only while `cookie` is an
+                # exact key (without it the ready-made Cookie header is shown as sent: recorded finding KF-C15-4a, not re-enumerated)
+                if not userinfo:
+                    if variant == "cookies" and "cookie" not in effective(config)[1]:
+                        res.count("py_failure_cookies_skipped:KF-C15-4a")
+                        continue
+                    message, wire = failure_message(case, extra)
+                    res.evaluations += 1
+                    res.traces += 1
+                    if message is None or "curl -X" not in message:
+                        res.oracle_errors.append({"error": "call_and_validate() against a 500 response raised no FailureGroup with a curl line",
+                                                  "item": item, "variant": variant, "message": (message or "")[:500]})
+                        continue
+                    judge(res, {**item, "variant": variant, "userinfo": False, "entry": "call_and_validate"}, secrets,
+                          {"py_failure": message, "argv": None}, ["py_failure"], wire)
                 if len(res.samples) < 1 and variant == "query" and userinfo:
                     res.samples.append({"item": item, "variant": variant, "command": command[:600]})
     finally:
         sanitization._DEFAULT_SANITIZATION_CONFIG = saved
     return res
+
+
+def failure_message(case: Any, extra: dict | None) -> tuple[str | None, list[dict]]:
+    """(message of the FailureGroup raised by case.call_and_validate() when the API answers 500, requests as received)."""
+    from mc import httpseam
+    from schemathesis.core.failures import FailureGroup
+
+    def handler(exchange: Any) -> tuple:
+        return 500, [("Content-Type", "application/json")], b'{"error": 1}'
+
+    message = None
+    with httpseam.installed(handler) as log:
+        try:
+            case.call_and_validate(headers=extra)
+        except FailureGroup as exc:
+            message = exc.message
+        wire = [{"headers": e.headers, "query": [list(q) for q in e.query], "url": e.url, "path": e.path, "status": 500} for e in log.exchanges]
+    return message, wire
 
 
 def check_item(item: dict, tier: str) -> Result:
@@ -1023,12 +1205,20 @@ def vacuity(total: Result, tier: str) -> list[str]:
         if not c.get(f"live:{ch}:resp_header"):
             out.append(f"live response control never seen in {ch}")
     for route in ("-H", "--auth", "userinfo", "--set-query", "--set-header", "--set-cookie", "response_set_cookie", "response_header",
+                  "response_set_cookie_2nd", "as_curl_query_2nd",
                   "generated_apikey_header", "generated_apikey_query", "generated_apikey_cookie", "generated_basic", "generated_bearer",
                   "as_curl_header", "as_curl_query", "as_curl_cookie", "as_curl_userinfo"):
         if not c.get(f"hidden:{route}"):
             out.append(f"route {route}: no value was ever judged hidden with sanitisation on")
         if not c.get(f"visible:{route}"):
             out.append(f"route {route}: no value was ever judged visible (sanitisation off / unconfigured name)")
+    for key in ("neterr:console", "neterr:junit", "neterr:vcr", "neterr:vcr_live", "neterr:har", "neterr:har_live",
+                "links:history_block", "links:history_live", "links:multi_step", "multi_value:query"):
+        if not c.get(key):
+            out.append(f"flow counter {key} is zero: the round-2 flow left nothing in that channel")
+    for loc in ("req_header", "req_query"):
+        if not c.get(f"live:py_failure:{loc}"):
+            out.append(f"live control ({loc}) never seen in the call_and_validate() failure message")
     if not c.get("marker_slots_checked"):
         out.append("no displayed name slot was checked for the redaction marker")
     if not {"hidden", "visible"} <= total.outcomes:
